@@ -21,8 +21,11 @@ type boundedResult struct {
 }
 
 var boundedFor = map[string][]string{
-	"C01": {"cache_search_test.go.txt"}, "C02": {"cache_search_test.go.txt"}, "C06": {"cache_search_test.go.txt"}, "C07": {"cache_search_test.go.txt"},
-	"C17": {"filter_search_test.go.txt"}, "C18": {"filter_search_test.go.txt"},
+	"C01": {"cache_search_test.go.txt", "assumed_contracts_test.go.txt"}, "C02": {"cache_search_test.go.txt", "assumed_contracts_test.go.txt"},
+	"C06": {"cache_search_test.go.txt"}, "C07": {"cache_search_test.go.txt"},
+	"C03": {"assumed_contracts_test.go.txt"}, "C13": {"assumed_contracts_test.go.txt"}, "C14": {"assumed_contracts_test.go.txt"},
+	"C17": {"filter_search_test.go.txt", "assumed_contracts_test.go.txt"}, "C18": {"filter_search_test.go.txt", "assumed_contracts_test.go.txt"},
+	"C19": {"assumed_contracts_test.go.txt"},
 }
 
 func runBoundedHarnesses(e *engine, prop string) ([]map[string]interface{}, []boundedResult) {
@@ -76,7 +79,7 @@ func runSelftest(verif, repo, prop string) selftestResult {
 			return 3, "patch does not apply: " + string(out)
 		}
 		self, _ := os.Executable()
-		k := exec.Command(self, "check", "-repo", scratch, "-verif", verif, "-prop", prop, "-no-evidence")
+		k := exec.Command(self, "check", "-repo", scratch, "-verif", verif, "-prop", prop, "-no-evidence", "-no-replay")
 		out, _ := k.CombinedOutput()
 		return k.ProcessState.ExitCode(), string(out)
 	}
